@@ -10,6 +10,7 @@ import vlib
 from codec_common import exhaustive, random_msgs
 
 PID = "C06"
+GENMIS = []
 
 def classify(m, res):
     """classifier key for known_findings.json"""
@@ -52,6 +53,18 @@ def run(ck, rb, cases):
     if len(impl) != len(cases):
         raise RuntimeError("harness died: rc=%s %s (got %d of %d)" % (rc, err[-500:], len(impl), len(cases)))
     model, _, _ = vlib.run_lines(drv, ["enc %s" % vlib.hx(m) for m, c in cases])
+    # blast() as GENERATED from today's qmail-remote.c (coq/gen/CGen.v C_rblast) against the compiled function: validation of the translator
+    global GENMIS
+    GENMIS = []
+    try:
+        gdrv = vlib.build_driver("GEN")
+        pick = list(range(len(cases))) if len(cases) <= 6000 else sorted(ck.rng.sample(range(len(cases)), 6000))
+        g, _, _ = vlib.run_lines(gdrv, ["rblast %s" % vlib.hx(cases[i][0]) for i in pick])
+        for i, gr in zip(pick, g):
+            ck.count("generated_rblast")
+            if gr != impl[i]: GENMIS.append(dict(message=vlib.hx(cases[i][0]), real=impl[i][:200], generated=gr[:200]))
+    except RuntimeError as e:
+        GENMIS.append(dict(what="generated functions do not build", log=str(e)[-600:]))
     oracle, _, _ = vlib.run_lines(drv, ["ok06 %s %s" % (vlib.hx(m), r if r[0] in "SP" else "S ff") for (m, c), r in zip(cases, impl)])
     # the package's own server decodes what the real client produced
     canon, _, _ = vlib.run_lines(drv, ["canon %s" % vlib.hx(m) for m, c in cases])
@@ -134,6 +147,9 @@ def main():
                                             input_hex=vlib.hx(m), read_chunk=c, observed=impl[i], expected=model[i],
                                             n_disagreements=len(mism)), nofail=True,
                      what="model and implementation disagree but every implementation output satisfies ok_C06")
+    if GENMIS and not (fails or hijack):
+        ck.violation("correspondence-generated", dict(kind="correspondence", broken="coq/gen/CGen.v C_rblast (generated from qmail-remote.c by tools/c2gallina.py) = the compiled blast()",
+                                                      first=GENMIS[0], n=len(GENMIS)), nofail=True, what="the generated function and the compiled function disagree (translator)")
     ck.proof_failure_violation(bool(fails or hijack))
     ck.finish(trusted_base=[vlib.KERNEL_TB, vlib.EXTRACTION_TB,
                             "harness/h_rblast.c, harness/h_sblast.c (substdio endpoints replaced by memory buffers; _exit via longjmp)",
